@@ -8,18 +8,14 @@ variables / operands+targets) is run, the operands are evaluated through Operand
 row.  The prescription (c01.snapshot through the public getters + class names of media and geometries) is
 compared with the nominal one after run() and after reset().
 
-Known defect mechanisms are modelled ("as-built") on a fresh lens and only a deviation that equals the model's
-prediction gets the mechanism key (fewest mechanisms first; anything else is `<clause>:unexplained` or the bare clause):
-  montecarlo-no-final-reset            MonteCarlo.run leaves the lens in the state of its last trial
-                                       (model: nominal + last row's recorded perturbation and compensator values)
-  index-reset-loses-dispersion         Variable.reset of an index variable = set_index(n(wl_var)): a catalogue glass becomes
-                                       a constant-index IdealMaterial (model: set_index(nominal n at wl_var) on a fresh lens)
-  index-perturbation-drops-dispersion  the same replacement when an index perturbation is *applied*, even with the nominal
-                                       value (nominal-perturbation clause only; model: apply it through the public setter)
-  radius-reset-on-plane                Variable.reset of a radius variable on a plane = set_radius(inf): the Plane has become
-                                       a StandardGeometry(radius=inf), which traces NaN (model: set_radius(inf) on a fresh lens)
+One open defect mechanism is modelled ("as-built") on a fresh lens; only a deviation that equals the model's prediction
+gets the mechanism key, anything else is the bare clause / `<clause>:unexplained`:
+  index-perturbation-drops-dispersion  applying an index perturbation (set_index) replaces a catalogue glass by a constant-index
+                                       IdealMaterial, even with the nominal value (nominal-perturbation clause only; model: apply
+                                       it through the public setter)
+Repaired since this check was built, now plain violations if they come back: MonteCarlo.run without final reset, index reset
+losing the dispersion, radius reset turning a plane into an untraceable StandardGeometry(radius=inf).
 """
-import itertools
 import math
 
 import numpy as np
@@ -32,7 +28,7 @@ ID = 'C15'
 RULE = ('random small lenses (2-6 optical interfaces at their paraxial focus, EPD aperture; ideal and catalogue media, '
         'conics, even aspheres, some with tilts/decentres and xy-polynomial / Chebyshev surfaces) x operand sets '
         '(1-4 of f2/F2/EPL/XPL, real-ray x/y intercepts, rms spot size mono/polychromatic, OPD difference, Seidel terms '
-        'and sums; targets = nominal values, sometimes 0 for spot size / OPD) x perturbation sets (1-4 of radius, conic, thickness, index, '
+        'and sums; targets = nominal values, sometimes 0 for spot size / OPD; a fifth of the normal runs and five fixed cases: image height of an axial zone/rim ray with an explicit target of exactly 0 / 0.0 / nominal +- a small offset under ONE image-distance compensator; a quarter of the distribution samplers seeded with 0) x perturbation sets (1-4 of radius, conic, thickness, index, '
         'asphere_coeff, tilt, decenter, polynomial_coeff, chebyshev_coeff; Range samplers for SensitivityAnalysis, '
         'Scalar / Range / Distribution normal & uniform, seeded, for MonteCarlo) x compensation (none, or thickness of '
         'the last gap with the generic / least-squares optimiser) x 1-20 trials; families: normal, nominal (every sampled '
@@ -53,6 +49,7 @@ MIN_EVALS = {
     'table-layout': {'quick': 25, 'thorough': 400},
     'fault-run-completes': {'quick': 4, 'thorough': 60},
     'fault-row-records-nan': {'quick': 2, 'thorough': 20},
+    'operand-target-stored': {'quick': 200, 'thorough': 3000},
 }
 ASSUMPTIONS = [
     'the fresh lens is built from the JSON spec through the public add_surface API (vkit.lens.build), never by copying the live lens',
@@ -82,12 +79,10 @@ ANCHORS = [('optiland.tolerancing.core', 'Tolerancing.reset'), ('optiland.tolera
            ('optiland.tolerancing.perturbation', 'ScalarSampler.sample'), ('optiland.tolerancing.perturbation', 'RangeSampler.sample'),
            ('optiland.tolerancing.perturbation', 'DistributionSampler.sample'),
            ('optiland.tolerancing.compensator', 'CompensatorOptimizer.run'),
-           ('optiland.optic', 'Optic.set_index')]
+           ('optiland.optic', 'Optic.set_index'), ('optiland.tolerancing.core', 'Tolerancing.add_operand'),
+           ('optiland.tolerancing.perturbation', 'DistributionSampler.__init__')]
 
-M_NORESET = 'montecarlo-no-final-reset'
-M_INDEX = 'index-reset-loses-dispersion'
-M_SET = 'index-perturbation-drops-dispersion'
-M_PLANE = 'radius-reset-on-plane'
+M_SET = 'index-perturbation-drops-dispersion'      # the only open mechanism (the others found here have been repaired)
 EPS = float(np.finfo(float).eps)
 
 
@@ -181,7 +176,7 @@ def _spread(rng, spec, kind, kw, nom, a):
     return abs(nom) * 0.2 + 1e-5
 
 
-def _sampler(rng, family, nom, d, a, seed_base, short=False):
+def _sampler(rng, family, nom, d, a, seed_base, short=False, force_seed0=False):
     """JSON description of a sampler around the nominal value."""
     if d is None:        # plane: radius samples far from flat but finite
         lo, hi = sorted([float(a * L.loguniform(rng, 200, 2000)), float(a * L.loguniform(rng, 200, 2000))])
@@ -190,7 +185,7 @@ def _sampler(rng, family, nom, d, a, seed_base, short=False):
         nomv, d = 0.5 * (lo + hi), 0.5 * abs(hi - lo)
     else:
         nomv = nom
-    kinds = ['range'] if family == 'SA' else ['scalar', 'range', 'normal', 'uniform']
+    kinds = ['range'] if family == 'SA' else ['normal', 'uniform'] if force_seed0 else ['scalar', 'range', 'normal', 'uniform']
     t = kinds[int(rng.integers(len(kinds)))]
     if t == 'scalar':
         return dict(type='scalar', value=float(nomv + d * rng.uniform(-1, 1)))
@@ -199,7 +194,8 @@ def _sampler(rng, family, nom, d, a, seed_base, short=False):
         if rng.random() < 0.3:
             return dict(type='range', start=float(nomv), end=float(nomv + d * (1 if rng.random() < 0.5 else -1)), steps=steps)
         return dict(type='range', start=float(nomv - d), end=float(nomv + d), steps=steps)
-    seed = int(seed_base + rng.integers(0, 10000)) if rng.random() < 0.9 else None
+    u = rng.random()
+    seed = 0 if (u < 0.25 or force_seed0) else int(seed_base + rng.integers(0, 10000)) if u < 0.92 else None      # seed 0 is a seed
     if t == 'normal':
         return dict(type='normal', loc=float(nomv), scale=float(d / 2), seed=seed)
     return dict(type='uniform', low=float(nomv - d), high=float(nomv + d), seed=seed)
@@ -247,7 +243,9 @@ def _operand_menu(rng, spec, need_ray, with_comp):
 
 FIXED = [(m, f, g) for m in ('normal', 'nominal', 'extreme', 'failpoint') for f in ('SA', 'MC') for g in (False,)] + \
         [('normal', 'SA', True), ('normal', 'SA', True), ('normal', 'MC', True), ('nominal', 'MC', True), ('nominal', 'SA', True)] + \
-        [('normal', 'SA', 'plane'), ('normal', 'MC', 'plane')]
+        [('normal', 'SA', 'plane'), ('normal', 'MC', 'plane')] + \
+        [('normal', 'SA', 'targets'), ('normal', 'MC', 'targets'), ('normal', 'MC', 'targets'), ('normal', 'MC', 'seed0'),
+         ('normal', 'MC', 'seed0')]
 
 
 def fixed_cases(tier):
@@ -258,13 +256,15 @@ def fixed_cases(tier):
         rng = np.random.default_rng([15, j])
         c = None
         while c is None:
-            c = gen_case(rng, tier, j, mode=m, family=f, index_on_glass=(g is True), radius_on_plane=(g == 'plane'))
+            c = gen_case(rng, tier, j, mode=m, family=f, index_on_glass=(g is True), radius_on_plane=(g == 'plane'),
+                         explicit_targets=(True if g == 'targets' else False if g else None), seed0=(g == 'seed0'))
         c['fixed'] = j
         out.append(c)
     return out
 
 
-def gen_case(rng, tier, i, mode=None, family=None, index_on_glass=None, radius_on_plane=False):
+def gen_case(rng, tier, i, mode=None, family=None, index_on_glass=None, radius_on_plane=False, explicit_targets=None,
+             seed0=False):
     r = rng.random()
     mode = mode or ('normal' if r < 0.66 else 'nominal' if r < 0.78 else 'extreme' if r < 0.90 else 'failpoint')
     family = family or ('SA' if rng.random() < 0.45 else 'MC')
@@ -286,6 +286,10 @@ def gen_case(rng, tier, i, mode=None, family=None, index_on_glass=None, radius_o
                 s_['norm'] = [float(round(100 * a, 3))] * 2
     K = len(spec['surfaces']) - 1
     with_comp = bool(rng.random() < (0.4 if mode in ('normal', 'extreme') else 0.25 if mode == 'nominal' else 0.3))
+    if explicit_targets is None:
+        explicit_targets = bool(mode == 'normal' and rng.random() < 0.2)
+    if explicit_targets:
+        with_comp = True            # an explicit target is observable in a row only through the compensation
     cands = _candidates(spec, rng, with_comp)
     kinds = sorted(cands)
     nper = int(rng.integers(1, 5))
@@ -323,7 +327,7 @@ def gen_case(rng, tier, i, mode=None, family=None, index_on_glass=None, radius_o
             smp = dict(type='range', start=nom, end=nom, steps=int(rng.integers(1, 4))) if family == 'SA' else \
                 dict(type='scalar', value=nom)
         else:
-            smp = _sampler(rng, family, nom, d, a, seed_base, short=with_comp)
+            smp = _sampler(rng, family, nom, d, a, seed_base, short=with_comp, force_seed0=(seed0 and family == 'MC'))
         perts.append(dict(kind=kind, kw=kw, sampler=smp, nominal=nom))
     fault = None
     if mode == 'extreme':
@@ -371,6 +375,19 @@ def gen_case(rng, tier, i, mode=None, family=None, index_on_glass=None, radius_o
         for o in ops:
             if o['type'] in ('rms_spot_size', 'OPD_difference') and rng.random() < 0.6:
                 o['target'] = 0.0                       # explicit target (the compensator then minimises the operand)
+    if explicit_targets:
+        # well-conditioned explicit targets: the image height of an axial zone/rim ray is (to first order) linear in the image
+        # distance, so the ONE thickness compensator reaches a target of exactly 0, or nominal +- a small offset, at a simple root
+        u = rng.random()
+        off = float(a * L.loguniform(rng, 1e-4, 1e-3) * (1 if rng.random() < 0.5 else -1))
+        tgt = 0 if u < 0.3 else 0.0 if u < 0.6 else dict(nominal_plus=off) if u < 0.9 else dict(nominal_plus=0.0)
+        rim = dict(type='real_y_intercept', kw=dict(surface_number=-1, Hx=0.0, Hy=0.0, Px=0.0, Py=float(rng.choice([0.7, 0.85, 1.0])),
+                                                    wavelength=L.primary_wavelength(spec)), weight=1.0, target=tgt)
+        extra = [o for o in ops if o['type'] not in ('rms_spot_size', 'OPD_difference', 'real_y_intercept', 'real_x_intercept')][:1]
+        if rng.random() < 0.3:      # a second explicit target on an operand the compensator cannot move (constant merit term)
+            extra = [dict(type='f2', kw={}, weight=float(rng.choice([1e-3, 1e-2])),
+                          target=(0 if rng.random() < 0.5 else dict(nominal_plus=float(rng.uniform(-0.5, 0.5)))))]
+        ops = [rim] + extra if mode != 'failpoint' else ops
     if family == 'SA':
         rows = sum(p['sampler']['steps'] for p in perts)
         trials = rows
@@ -480,7 +497,7 @@ def _vec_scale(got, want, sc):
 class Fresh:
     """A lens built from the spec + the tolerancing problem restated on it with public pieces only."""
 
-    def __init__(self, case, reset_idx=()):
+    def __init__(self, case):
         from optiland.optimization.operand import Operand
         self.case = case
         self.lens = L.build(case['spec'])
@@ -497,18 +514,6 @@ class Fresh:
             for c in case['comps']:
                 self.comp.add_variable(self.lens, c['kind'], **_kw(c['kw']))
             self.comp.operands = self.ops
-        # as-built model of mechanism `index-reset-loses-dispersion`: the index perturbations listed in reset_idx have been
-        # reset once -> constant-index medium carrying the nominal index at the variable's wavelength
-        # ... and of `radius-reset-on-plane`: a radius perturbation of a plane has been reset once -> set_radius(inf) has
-        # replaced the Plane by a StandardGeometry with radius = inf
-        for j in reset_idx:
-            p = case['perts'][j]
-            k = p['kw']['surface_number']
-            if p['kind'] == 'index':
-                n0 = float(np.ravel(self.lens.surface_group.surfaces[k].material_post.n(p['kw']['wavelength']))[0])
-                self.lens.set_index(n0, k)
-            elif p['kind'] == 'radius':
-                self.lens.set_radius(float('inf'), k)
 
     def perturb(self, idx_values):
         from optiland.optimization.variable import Variable
@@ -647,7 +652,42 @@ def table_array(df):
     return cols, arr, (list(df['perturbation_type']) if 'perturbation_type' in cols else None)
 
 
+def resolve_targets(case):
+    """{'nominal_plus': d} -> nominal operand value (fresh nominal lens, Operand.value) + d; numbers and None stay as they are."""
+    if not any(isinstance(o['target'], dict) for o in case['operands']):
+        return case
+    from optiland.optimization.operand import Operand
+    lens = L.build(case['spec'])
+    ops = []
+    for o in case['operands']:
+        if isinstance(o['target'], dict):
+            v = float(np.ravel(np.asarray(Operand(o['type'], 0.0, 1.0, dict(optic=lens, **o['kw'])).value, dtype=float))[0])
+            o = dict(o, target=v + float(o['target']['nominal_plus']))
+        ops.append(o)
+    return dict(case, operands=ops)
+
+
+def target_stored(case, rec, nominal):
+    """Tolerancing.add_operand keeps an explicit target as given (0 and 0.0 included) and replaces only None by the nominal value;
+    observed at the public attributes Tolerancing.operands[i].target."""
+    from optiland.tolerancing.core import Tolerancing
+    t = Tolerancing(nominal.lens)
+    for o, v0 in zip(case['operands'], nominal.values()):
+        inp = dict(optic=nominal.lens, **o['kw'])
+        xs = [0, 0.0, -0.0, float(v0), float(v0) * 1.5 + 0.123, -2.75] + ([o['target']] if o['target'] is not None else [])
+        for x in xs:
+            t.add_operand(o['type'], inp, target=x, weight=o['weight'])
+            got = t.operands[-1].target
+            rec.check('operand-target-stored', (got == x or (x != x and got != got)) and t.operands[-1].weight == o['weight'],
+                      msg=f'add_operand({o["type"]!r}, target={x!r}) stored target {got!r}')
+        t.add_operand(o['type'], inp, weight=o['weight'])
+        got = float(np.ravel(np.asarray(t.operands[-1].target, dtype=float))[0])
+        rec.check('operand-target-stored', (got == v0) or (got != got and v0 != v0) or abs(got - v0) <= 1e-12 * max(1.0, abs(v0)),
+                  msg=f'add_operand({o["type"]!r}) without a target stored {got!r}, the nominal value is {v0!r}')
+
+
 def check_case(case, rec):
+    case = resolve_targets(case)
     mode, family = case['mode'], case['family']
     spec = case['spec']
     nP, nO, nC = len(case['perts']), len(case['operands']), len(case['comps'])
@@ -669,6 +709,12 @@ def check_case(case, rec):
             rec.cls('chebyshev-out-of-norm-skipped')
             return
         raise
+    target_stored(case, rec, nominal)
+    if any(o['target'] is not None for o in case['operands']):
+        rec.cls('explicit-operand-target', *(f'target-{"zero" if o["target"] == 0 else "offset"}' for o in case['operands']
+                                             if o['target'] is not None))
+    if any(p['sampler'].get('seed') == 0 for p in case['perts']):
+        rec.cls('sampler-seed-0')
     nom_types = media_types(nominal.lens)
     nom_vec, nom_sc = snap_vec(nominal.lens, nom_types)
     pnames = pert_names(case, nominal.lens)
@@ -682,21 +728,6 @@ def check_case(case, rec):
         rec.cls('index-perturbation-on-dispersive-medium')
     if plane_radius:
         rec.cls('radius-perturbation-on-plane')
-
-    def reset_models(applied, fn):
-        """as-built models for the perturbations that are only ever *reset* in a row / at the end (not in `applied`):
-        every non-empty subset of the mechanisms that can act, fewest first; fn(reset_idx) -> predicted vector."""
-        cands = {}
-        if [j for j in dispersive_index if j not in applied]:
-            cands[M_INDEX] = [j for j in dispersive_index if j not in applied]
-        if [j for j in plane_radius if j not in applied]:
-            cands[M_PLANE] = [j for j in plane_radius if j not in applied]
-        out = []
-        for k in range(1, len(cands) + 1):
-            for fl in itertools.combinations(sorted(cands), k):
-                idx = sorted(j for f in fl for j in cands[f])
-                out.append((fl, (lambda idx=idx, **kw: fn(idx, **kw))))
-        return out
 
     # ---- the library run ----------------------------------------------------------------------------
     lens = L.build(spec)
@@ -791,7 +822,6 @@ def check_case(case, rec):
         rp = row_perts(r)
         got = op_tab[r]
         inj_here = (r + 1) in injected and not nC
-        applied_r = [q for q, _ in rp]       # perturbations not applied in this row have only been reset (SA)
 
         def inject(v, mask):
             v = np.array(v, dtype=float)
@@ -799,10 +829,10 @@ def check_case(case, rec):
             return v
         if not (mode == 'failpoint' and nC):
             mask = np.isin(np.arange(nO), f2col) if inj_here else np.zeros(nO, dtype=bool)
-            def replay(idx=(), nudge=0.0, mask=mask, rp=rp):
-                return inject(Fresh(case, reset_idx=idx).perturb(rp).compensate(nudge).values(), mask)
+            def replay(nudge=0.0, mask=mask, rp=rp):
+                return inject(Fresh(case).perturb(rp).compensate(nudge).values(), mask)
             want = replay()
-            models = reset_models(applied_r, replay)
+            models = []
             undecided = False
             if nC:
                 # Is the comparison decidable?  The library's lens at the start of a trial differs from the fresh one in the
@@ -816,7 +846,7 @@ def check_case(case, rec):
                 def agrees(v):
                     r_, same_ = rec.resid(got, v, sc_)
                     return bool(same_ and r_ <= tol_row)
-                bases = [(replay, want)] + [(alt, alt()) for _, alt in models]
+                bases = [(replay, want)]
                 if not any(agrees(v) for _, v in bases):
                     for fn_, base in bases:
                         for nudge in (2e-15, -2e-15, 1.6e-14):
@@ -841,8 +871,7 @@ def check_case(case, rec):
             # part of the statement): a NaN there is accepted, their count is bounded by the injections that fired.
             mask = (np.isnan(got) & np.isin(np.arange(nO), f2col)) if mode == 'failpoint' else np.zeros(nO, dtype=bool)
             want2 = inject(Fresh(case).perturb(rp).set_compensators(comp_tab[r]).values(), mask)
-            models = reset_models(applied_r, lambda idx, mask=mask: inject(
-                Fresh(case, reset_idx=idx).perturb(rp).set_compensators(comp_tab[r]).values(), mask))
+            models = []
             close_mech(rec, 'row-consistent-with-recorded-compensation', got, want2, 1e-9,
                        op_scale(case, want2, got, 1e-9), models,
                        msg=f'{family} row {r}: recorded operands {got.tolist()} but the recorded perturbation {rp} + recorded '
@@ -869,17 +898,12 @@ def check_case(case, rec):
         for r in range(n_rows):
             rp = row_perts(r)
             applied = [j for j in dispersive_index if j in [q for q, _ in rp]]
-            only_reset = [j for j in dispersive_index if j not in applied]
-            cands = ([M_SET] if applied else []) + ([M_INDEX] if only_reset else [])
 
-            def nominal_model(flags, rp=rp, applied=applied, only_reset=only_reset):
+            def nominal_model(rp=rp):
                 # `index-perturbation-drops-dispersion`: applying the (nominal) index value through the public setter makes the
-                # medium constant-index; `index-reset-loses-dispersion`: so does the reset of one that is not applied in this row
-                f = Fresh(case, reset_idx=(only_reset if M_INDEX in flags else ()))
-                f.perturb([(j, v) for j, v in rp if (M_SET in flags or j not in applied)])
-                return f.values()
-            models = [(fl, (lambda fl=fl: nominal_model(fl))) for k in range(1, len(cands) + 1)
-                      for fl in itertools.combinations(cands, k)]
+                # medium of a catalogue glass constant-index
+                return Fresh(case).perturb(rp).values()
+            models = [((M_SET,), nominal_model)] if applied else []
             t = 1e-12
             close_mech(rec, 'nominal-perturbation-reproduces-nominal', op_tab[r], nom_vals, t,
                        op_scale(case, nom_vals, op_tab[r], t), models,
@@ -898,40 +922,21 @@ def check_case(case, rec):
             rec.nontrivial_case()
 
     # ---- lens restored ---------------------------------------------------------------------------------------
-    def model_vec(flags):
-        f = Fresh(case, reset_idx=([j for j in dispersive_index if M_INDEX in flags] + [j for j in plane_radius if M_PLANE in flags]))
-        if M_NORESET in flags and n_rows:
-            f.perturb(row_perts(n_rows - 1))
-            if nC:
-                f.set_compensators(comp_tab[n_rows - 1])
-        return snap_vec(f.lens, nom_types)[0]
-
-    def restore_models(candidates):
-        out = []
-        for k in range(1, len(candidates) + 1):
-            for fl in itertools.combinations(candidates, k):
-                out.append((fl, (lambda fl=fl: model_vec(fl))))
-        return out
-
-    cand_reset = ([M_INDEX] if dispersive_index else []) + ([M_PLANE] if plane_radius else [])
-    cand_run = ([M_NORESET] if family == 'MC' else []) + cand_reset
     sc = _vec_scale(after_run_vec, nom_vec, nom_sc)
-    r0, same0 = rec.resid(after_run_vec, nom_vec, sc)
     close_mech(rec, 'lens-restored-after-run', after_run_vec, nom_vec, 1e-12, sc,
-               restore_models(cand_run) if not (same0 and r0 <= 1e-12) else [],
+               [],
                msg=f'after {family}.run() the prescription differs from the nominal one: ' + _diff_text(after_run_vec, nom_vec, sc))
     tol.reset()
     after_reset_vec, _ = snap_vec(lens, nom_types)
     sc = _vec_scale(after_reset_vec, nom_vec, nom_sc)
-    r0, same0 = rec.resid(after_reset_vec, nom_vec, sc)
     close_mech(rec, 'lens-restored-after-reset', after_reset_vec, nom_vec, 1e-12, sc,
-               restore_models(cand_reset) if not (same0 and r0 <= 1e-12) else [],
+               [],
                msg=f'after {family}.run() and Tolerancing.reset() the prescription differs from the nominal one: '
                    + _diff_text(after_reset_vec, nom_vec, sc))
     # operands of the restored lens (what a user sees after the run)
     after_vals = np.array([float(np.ravel(np.asarray(v, dtype=float))[0]) for v in tol.evaluate()])
     close_mech(rec, 'operands-restored-after-reset', after_vals, nom_vals, 1e-10, op_scale(case, nom_vals, after_vals, 1e-10),
-               reset_models([], lambda idx: Fresh(case, reset_idx=idx).values()),
+               [],
                msg=f'operands evaluated on the live lens after reset() are {after_vals.tolist()}, on the nominal lens {nom_vals.tolist()}')
 
     # ---- seeded run reproducible ----------------------------------------------------------------------------
